@@ -77,6 +77,27 @@ static bool match_track(Case &c, const std::vector<XE> &exp, const std::vector<D
                 { c.violation("oracle:C07:zero-length-note-off-before-its-noteon", vfmt("track %d tick %llu: key %d note-off delivered before the note-on that precedes it in the file; %s", track, (unsigned long long)A.tick, key, ctx.c_str())); return false; }
             }
         }
+        // R5: the note-ons and note-offs of one key keep their file order inside the tick (after the note-off that shuts a note sounding
+        // since an earlier tick, which R3 puts in front)
+        for(size_t a = 0; a < n; a++) if(exp[i + a].cls == CL_NOTEON || exp[i + a].cls == CL_NOTEOFF)
+        {
+            const XE &A = exp[i + a];
+            int ch = A.e.channel, key = A.e.data[0] & 127;
+            bool first_of_key = true;
+            for(size_t b = 0; b < a; b++) if((exp[i + b].cls == CL_NOTEON || exp[i + b].cls == CL_NOTEOFF) && exp[i + b].e.channel == ch && (exp[i + b].e.data[0] & 127) == key) first_of_key = false;
+            if(!first_of_key) continue;
+            bool skip_first_off = sounding[ch][key];
+            int prev_pos = -1; size_t prev_b = 0; int nkey = 0;
+            for(size_t b = a; b < n; b++) if((exp[i + b].cls == CL_NOTEON || exp[i + b].cls == CL_NOTEOFF) && exp[i + b].e.channel == ch && (exp[i + b].e.data[0] & 127) == key)
+            {
+                nkey++;
+                if(skip_first_off && exp[i + b].cls == CL_NOTEOFF) { skip_first_off = false; continue; }
+                if(pos_of_expected[b] < prev_pos)
+                { c.violation("oracle:C07:same-key-note-order-changed", vfmt("track %d tick %llu: key %d: %s precedes %s in the file but was delivered after it (key %s before this tick); %s", track, (unsigned long long)A.tick, key, exp[i + prev_b].e.str().c_str(), exp[i + b].e.str().c_str(), sounding[ch][key] ? "sounding" : "silent", ctx.c_str())); return false; }
+                prev_pos = pos_of_expected[b]; prev_b = b;
+            }
+            if(nkey >= 3) count("ticks_with_a_key_struck_or_released_three_times");
+        }
         // update sounding state in file order
         for(size_t a = 0; a < n; a++)
         {
@@ -129,6 +150,7 @@ static void run_case(Case &c)
 {
     Rng &r = c.rng;
     SongOpts so; so.max_tracks = 8; so.max_events = (int)g_w.optnum("maxevents", 40); so.tempo_changes = true; so.lone_eot = true; so.big_deltas = r.chance(0.1);
+    so.game_ccs = r.chance(0.5) ? 0 : r.chance(0.5) ? 1 : 2;
     Song song = gen_song(r, so);
     // keep songs short in real time: slow tempi with big divisions make audio-driven runs expensive
     std::vector<uint8_t> file = serialize_song(song);
@@ -195,6 +217,8 @@ static void run_case(Case &c)
     double len = 0; API("opn2_totalTimeLength", len = opn2_totalTimeLength(d));
     if(getenv("VERIF_SONG_DUMP")) for(int t = 0; t < nt; t++) for(size_t i = 0; i < song.tracks[(size_t)t].ev.size(); i++) { const SEv &e = song.tracks[(size_t)t].ev[i];
         if(e.is_tempo() || e.is_eot() || i + 2 >= song.tracks[(size_t)t].ev.size()) fprintf(stderr, "[song] trk %d tick %llu st %02x meta %02x data %s t=%.9f\n", t, (unsigned long long)e.tick, e.status, e.meta, hexs(e.data, 8).c_str(), (double)tm.seconds(e.tick)); }
+    if(getenv("VERIF_TICK_DUMP")) { unsigned long long want = strtoull(getenv("VERIF_TICK_DUMP"), NULL, 10); for(int t = 0; t < nt; t++) for(size_t i = 0; i < song.tracks[(size_t)t].ev.size(); i++) { const SEv &e = song.tracks[(size_t)t].ev[i];
+        if(e.tick == want) fprintf(stderr, "[tick] trk %d idx %zu st %02x meta %02x data %s\n", t, i, e.status, e.meta, hexs(e.data, 8).c_str()); } }
     if(getenv("VERIF_LEN_TRACE")) fprintf(stderr, "[len] case %ld div %d tracks %d len-ref %.3g ref %.6f\n", c.k, song.division, nt, len - (ref_len + 1.0), ref_len);
     if(fabs(len - (ref_len + 1.0)) > 1e-6 + ref_len * 1e-9)
         c.violation("oracle:C07:reported-length", vfmt("opn2_totalTimeLength %.9f, reference (last event %.9f s + 1 s) = %.9f; format %d tracks %d division %d", len, ref_len, ref_len + 1.0, song.format, nt, song.division));
@@ -261,6 +285,7 @@ static void run_case(Case &c)
         const DEv &e = cap.ev[i];
         if(is_song_begin_marker(e)) { begin_markers++; if(e.acc_t != 0 && drive != 2) c.violation("oracle:C07:song-begin-marker-not-at-zero", vfmt("synthetic song-begin marker delivered at %.9f", e.acc_t)); continue; }
         int t = track_of(e, nt);
+        if(e.type == 0xFF && e.subtype == 0xE1 && e.data.empty() && song.hmi_track >= 0) { t = song.hmi_track; count("cc110_loop_start_markers_delivered"); }
         if(t == -2) { eots.push_back(e); continue; }
         if(t < 0 || t >= nt) { c.violation("oracle:C07:unexpected-or-misplaced-event", vfmt("delivered event %s cannot be attributed to any track of the file (tracks %d)", e.str().c_str(), nt)); continue; }
         del[(size_t)t].push_back(e);
@@ -282,6 +307,8 @@ static void run_case(Case &c)
         for(size_t i = 0; i < ev.size(); i++)
         {
             XE x = expected_of(ev[i], t);
+            // the first CC110 of a file is the sequencer's loop start marker: handed over as the internal marker event, not as a controller
+            if(x.cls == CL_CTRL && x.e.type == 0xB && x.e.data.size() == 2 && x.e.data[0] == 110 && song.hmi_track == t) { x.cls = CL_META; x.e.type = 0xFF; x.e.subtype = 0xE1; x.e.data.clear(); }
             if(x.cls == CL_EOT) { if(en) eots_expected++; continue; }
             if(ev[i].is_tempo()) tempo_events++;
             if(!en && !(t == 0 && ev[i].is_tempo())) continue;     // gated tracks deliver nothing, except track 0's tempo events
